@@ -201,6 +201,20 @@ def regenerate(repo: Path) -> dict:
     emit_group(repo, "GenTrend.v", "From Coq Require Import List ZArith Bool Arith.\nFrom PV Require Import Xnum Select PyLib Trend.\n"
                "Import ListNotations.\n",
                "Variable A : Type.\nVariable cost : A -> xnum.\nVariable POS : Type.\nVariable pos : A -> POS.\n", trend_specs(), status)
+    import ast as _ast
+    try:
+        mt = _ast.parse((repo / "pyvolutionary" / "models.py").read_text())
+        ann = ""
+        for c in mt.body:
+            if isinstance(c, _ast.ClassDef) and c.name == "Task":
+                for st in c.body:
+                    if isinstance(st, _ast.AnnAssign) and isinstance(st.target, _ast.Name) and st.target.id == "seed":
+                        ann = _ast.unparse(st.annotation) + " = " + (_ast.unparse(st.value) if st.value is not None else "")
+        ok = ann.replace(" ", "") in ("int|None=None", "Optional[int]=None", "None|int=None")
+        status["gen_task_seed_is_int"] = "regenerated" if ok else f"UNSUPPORTED: Task.seed annotated `{ann}`"
+    except Exception as e:
+        ok = False; status["gen_task_seed_is_int"] = f"ERROR: {e}"
+    coq.write_if_changed(GEN / "GenSeed.v", HEADER + f"Definition gen_task_seed_is_int : bool := {'true' if ok else 'false'}.\n")
     from . import tschema
     tschema.emit(repo, status)
     from . import talgo, expected
